@@ -69,7 +69,8 @@ func (p *pkgInfo) reverseIsPlain() bool {
 	if f == nil {
 		return false
 	}
-	want := map[string]string{"StringToType": "reverseInt16(TypeToString)", "StringToClass": "reverseInt16(ClassToString)"}
+	want := map[string]string{"StringToType": "reverseInt16(TypeToString)", "StringToClass": "reverseInt16(ClassToString)",
+		"StringToAlgorithm": "reverseInt8(AlgorithmToString)"}
 	seen := 0
 	ast.Inspect(f, func(n ast.Node) bool {
 		vs, ok := n.(*ast.ValueSpec)
@@ -81,7 +82,7 @@ func (p *pkgInfo) reverseIsPlain() bool {
 		}
 		return true
 	})
-	return seen == 2
+	return seen == 3
 }
 
 func leanStringTable(name string, m map[string]int64) string {
@@ -112,6 +113,7 @@ func (p *pkgInfo) lexTables() string {
 	var b strings.Builder
 	b.WriteString(leanStringTable("stringToType", p.stringMap("ztypes.go", "TypeToString")))
 	b.WriteString(leanStringTable("stringToClass", p.stringMap("msg.go", "ClassToString")))
+	b.WriteString(leanStringTable("stringToAlgorithm", p.stringMap("dnssec.go", "AlgorithmToString")))
 	fmt.Fprintf(&b, "def maxTok : Nat := %d\n", p.constVal("maxTok"))
 	return b.String()
 }
